@@ -56,9 +56,10 @@ type Case struct {
 	Proxied   bool   `json:"proxied"`    // the service is a backend registered with RegisterConn
 	Meta      bool   `json:"meta"`       // the handler sets header and trailer metadata
 	RawReply  bool   `json:"raw_reply"`  // unary/server shapes: the method replies with google.api.HttpBody (raw bytes on HTTP)
-	Encoding  string `json:"encoding"`    // gRPC / gRPC-web: grpc-encoding of the request ("" | identity | gzip)
-	SendLimit int    `json:"send_limit"`  // MaxSendMessageSize of the mux (0 = default): replies of 200 bytes do not fit a small limit
-	BadQuery  string `json:"bad_query"`   // http / httpget: a query string the method can not accept (the RPC is refused before the handler)
+	Encoding  string `json:"encoding"`   // gRPC / gRPC-web: grpc-encoding of the request ("" | identity | gzip)
+	SendLimit int    `json:"send_limit"` // MaxSendMessageSize of the mux (0 = default): replies of 200 bytes do not fit a small limit
+	BadBody   int    `json:"bad_body"`   // http: k > 0 makes the k-th message of the body ill-typed JSON (it reads fine and does not decode: nobody ever receives it)
+	BadQuery  string `json:"bad_query"`  // http / httpget: a query string the method can not accept (the RPC is refused before the handler)
 	StrayBody string `json:"stray_body"` // httpget: body sent although the binding maps none ("" = none; a leading "~" = unknown length)
 }
 
@@ -427,8 +428,11 @@ func execute(c Case, unaryInt, streamInt, withStats bool, behaviour string) (run
 	switch c.Transport {
 	case "http":
 		hdr.Set("Content-Type", "application/json")
-		for _, n := range c.Sizes {
+		for i, n := range c.Sizes {
 			b, _ := protojson.Marshal(msgOfSize(w, n))
+			if c.BadBody == i+1 {
+				b = []byte(`{"f_int32":"two"}`)
+			}
 			body.Write(b)
 		}
 		cl := int64(body.Len())
@@ -494,7 +498,7 @@ func Check(c Case) []evid.Violation {
 	if got.panicked != "" {
 		return fail("transparency", "panic-with-options@"+strings.SplitN(got.panicked, ":", 2)[0], "options (unary=%v stream=%v stats=%v): %s", c.UnaryInt, c.StreamInt, c.Stats, got.panicked)
 	}
-	if c.BadQuery != "" && !hl.ran && !bhl.ran {
+	if (c.BadQuery != "" || c.BadBody > 0) && !hl.ran && !bhl.ran {
 		// refused before the handler: the options must not change the answer, and whatever the stats
 		// handler was told must still be a complete sequence (nothing at all, or Tag .. Begin .. End once)
 		if got != base {
@@ -512,6 +516,13 @@ func Check(c Case) []evid.Violation {
 					}
 					if k == "Begin" {
 						nBegin++
+					}
+				}
+				if c.BadBody > 0 {
+					for _, k := range ks {
+						if k == "InPayload" {
+							return fail("stats", "inpayload-count", "refused request (body does not decode): InPayload reported for a message nobody received: %v", ks)
+						}
 					}
 				}
 				if nBegin != nEnd || nEnd > 1 || (nEnd == 1 && ks[len(ks)-1] != "End") {
@@ -694,6 +705,9 @@ func genCase(t *rapid.T) Case {
 	if (c.Transport == "http" || c.Transport == "httpget") && rapid.IntRange(0, 7).Draw(t, "badQuery") == 0 {
 		c.BadQuery = rapid.SampledFrom([]string{"nope=1", "f_int32=two", "f_string=a&nope.x=1", "r_leaf.count=1"}).Draw(t, "badQueryV")
 	}
+	if c.Transport == "http" && c.BadQuery == "" && len(c.Sizes) > 0 && rapid.IntRange(0, 7).Draw(t, "badBody") == 0 {
+		c.BadBody = rapid.IntRange(1, len(c.Sizes)).Draw(t, "badBodyAt")
+	}
 	if (c.Shape == "server" || c.Shape == "bidi") && rapid.IntRange(0, 5).Draw(t, "sendLimit") == 0 {
 		// replies have 3, 4, 5, ... encoded bytes: with a limit of 4 or 5 a later SendMsg is refused
 		c.SendLimit = rapid.SampledFrom([]int{4, 5}).Draw(t, "sendLimitV")
@@ -732,6 +746,9 @@ func TestProp(t *testing.T) {
 		if c.BadQuery != "" {
 			cl = append(cl, "refused-by-query")
 		}
+		if c.BadBody > 0 {
+			cl = append(cl, "message-that-does-not-decode")
+		}
 		if c.SendLimit > 0 {
 			cl = append(cl, "send-limit")
 		}
@@ -750,6 +767,7 @@ func TestPropProxied(t *testing.T) {
 		c := genCase(t)
 		c.Proxied = true
 		c.SendLimit = 0 // the backend's own sends are not limited: its handler can not see the front's refusal
+		c.BadBody = 0   // the front refuses the message; what the backend has received by then is a matter of timing
 		if c.Transport == "httpget" {
 			c.Transport, c.StrayBody = "http", "" // the annotation routes of the local world are not part of the backend's implicit bindings
 		}
